@@ -36,7 +36,7 @@ def replay(path):
 
 def extra(chk, info, res):
     from checks import decisions_common as _dc
-    _dc.tie(chk, ['winter_filtration', 'winter_swim'])
+    _dc.tie(chk, ['winter_filtration', 'winter_swim', 'guards_swim'])
     from checks import guards_common
     guards_common.correspondence(chk, ['filtration_is_wintering'])
     from checks import winter_common
